@@ -60,7 +60,7 @@ def plan(tier, seed):
     specs.extend(big.specs(tier, seed, 'C06'))
     meta = dict(
         rule=RULE,
-        require=['big_histories', 'sequences', 'steps', 'quiescent_checks', 'gc_calls',
+        require=['big_histories', 'huge_histories', 'sequences', 'steps', 'quiescent_checks', 'gc_calls',
                  'gc_freed_nodes', 'node_numbers_reused',
                  'gc_rooted_calls', 'swap_calls', 'cache_entries_watched',
                  'dynamic_history_steps', 'releases_at_count_zero'],
@@ -142,7 +142,7 @@ class Mini:
         self.ever |= before | after
         w.check(NAMES[k])
         self.ctx.counters['steps'] += 1
-        self.ctx.counters['cache_entries_watched'] += len(raw._ite_table)
+        self.ctx.counters['cache_entries_watched'] += monitors.entries(raw._ite_table)
         _library_warnings(w, NAMES[k])
 
 
@@ -241,7 +241,7 @@ def _random(ctx, spec, rng, names, dynamic):
         reused = new & ever
         ctx.counters['node_numbers_reused'] += len(reused)
         ever |= after
-        ctx.counters['cache_entries_watched'] += len(w.raw._ite_table)
+        ctx.counters['cache_entries_watched'] += monitors.entries(w.raw._ite_table)
         ok, _ = ctx.guard(w.site, _library_warnings, w, w.site)
         if not ok:
             return
